@@ -168,20 +168,25 @@ def run(ctx, scale=1):
                          'swapped end points / rescaled half-line direction / shuffled vertices with repeats / shuffled faces), built with float, int or Fraction coordinates, 30% recomputed through '
                          'move-and-back; odd cases: a near-miss different set (a defining point displaced by >= 1/100, direction tilted, half-line reversed, one vertex pushed out, polygon lifted off '
                          'its plane); observed: a==b, b==a, a!=b, hash equality, len({a,b}), a==a, == against foreign values; non-trivial = every case')
-    ctx.extra['unproved'] = ['polygon/polyhedron: "same set ⇔ ==" rests on the canonical vertex cycle (K6) — decided per run']
+    ctx.extra['unproved'] = ['polygon/polyhedron: the code compares rounded SUMS of point/face hashes; the model compares vertex sets and planes (proved ⇔ same point set); that the hash sums agree exactly when the sets do is decided per run']
     total = ctx.n(6000, 200000) * scale
     recs = []
     for part in core.pmap(work, core.chunks(ctx, total, per=200)):
         recs.extend(part)
-    flat = [r for r in recs if r['X'][0] not in 'GB']
-    outs = core.model_lines(['eq %s %s' % (mtok(r['X']), mtok(r['Y'])) for r in flat])
-    for r, ml in zip(flat, outs):
+    # truth = the Lean equality of the model (`eqv` / `Polygon.same` / `Polyhedron.sameB`, each proved ⇔ same point set);
+    # for composites additionally cross-checked against the exact vertex-set oracle
+    outs = core.model_lines(['eq %s %s' % (mtok(r['X']), mtok(r['Y'])) for r in recs])
+    for r, ml in zip(recs, outs):
         if ml not in ('true', 'false'):
+            if r['X'][0] in 'GB' and ml.startswith('ctor-error'):      # a near-miss that is not a valid composite: the oracle decides
+                r['truth'] = same_set(r['X'], r['Y'])
+                ctx.stats['model-constructor-rejects-near-miss'] += 1
+                continue
             raise RuntimeError('model eq: %s %s -> %s' % (mtok(r['X']), mtok(r['Y']), ml))
         r['truth'] = (ml == 'true')
+        if r['X'][0] in 'GB' and r['truth'] != same_set(r['X'], r['Y']):
+            raise RuntimeError('model equality and exact oracle differ: %s %s' % (mtok(r['X'])[:200], mtok(r['Y'])[:200]))
     for r in recs:
-        if 'truth' not in r:
-            r['truth'] = same_set(r['X'], r['Y'])
         X, Y, t = r['X'], r['Y'], r['truth']
         key = mtok(X) + ' == ' + mtok(Y)
         ctx.count(key)
